@@ -26,6 +26,9 @@ var v0Base = []string{
 	`1.5`, `-0.0`, `1e308`, `(- math:inf math:inf)`, `math:inf`, `math:-inf`,
 	// strings: empty, short, and the literals the stdlib parsers accept
 	`""`, `"x"`, `"("`, `"1s"`, `"2020-01-02T03:04:05Z"`, `"[1,{\"a\":2}]"`, `"eA=="`, `"{} {}"`,
+	// strings that are MALFORMED in a syntax some builtin parses out of a string: format directives (unclosed, stray
+	// closer, escape at the end, index out of range, non-numeric), regexps, JSON cut short, durations, base64, timestamps
+	`"{0"`, `"a{b"`, `"}"`, `"{{"`, `"{9}"`, `"{-1}"`, `"x{"`, `"(["`, `"a\\"`, `"{\"a\":"`, `"1h1"`, `"=A=="`, `"2020-13-01T00:00:00Z"`,
 	// symbols: plain, type specifiers, qualified, keyword, unquoted, doubly quoted
 	`'x`, `'bytes`, `'list`, `'vector`, `'string`, `'lisp:car`, `'condition`, `:a`, `(car '(x))`, `''x`,
 	// bytes
